@@ -32,11 +32,12 @@ pub fn client(oid: u64, text: String) {
     push(oid + 2, format!("C{oid} {text}"));
 }
 
-/// Takes the events logged so far, stably sorted by task key (the canonical form).
-pub fn take_canonical() -> Vec<String> {
+/// Takes the events logged so far: (in log order, stably sorted by task key = the canonical form).
+pub fn take_both() -> (Vec<String>, Vec<String>) {
     let mut v: Vec<(u64, String)> = std::mem::take(&mut *LOG.lock().unwrap_or_else(|e| e.into_inner()));
+    let raw = v.iter().map(|(_, t)| t.clone()).collect();
     v.sort_by_key(|(k, _)| *k);
-    v.into_iter().map(|(_, t)| t).collect()
+    (raw, v.into_iter().map(|(_, t)| t).collect())
 }
 
 fn accept_probe(_id: rsactor::Identity) {
